@@ -8,7 +8,8 @@ from .c04 import gen_v01, gen_v00, v00_expected
 RULE = ("files written by the Python writer (v0.2) and by the reference encoders (v0.0, v0.1 with the frame count in the 16-bit field, v0.2) over the C01/C04 space with unique component names "
         "and standard point formats (X, Y, Z, C letters), 0–3 people, several components, mixed formats, multi-byte names, every float32 class; the REAL parser.ts of the working tree is type-stripped "
         "(module.stripTypeScriptTypes) and executed under Node 22 on every file; compared: JavaScript dump vs Pose.read field by field and value by value (oracle), and vs the Lean model of parser.ts "
-        "(v0.1/v0.2; header, header length, info fields, flat arrays); version patterns at the rounding-band edges are compared with the model's Math.round classification; non-trivial = distinct file")
+        "(v0.1/v0.2; header, header length, info fields, flat arrays); version patterns at the rounding-band edges are compared with the model's Math.round classification; every float32 pattern within 150 (thorough: 4000, plus strides through the whole bands) "
+        "patterns of the four edges of the version bands (0.0995, 0.1005, 0.1995, 0.2005) as the version field of a v0.1- and a v0.2-bodied file through both real readers and both model classifiers (the hypothesis hcls of the theorems); non-trivial = distinct file")
 ASSUMPTIONS = ["the npm package binary-parser 2.2.1 is not installed and cannot be fetched: it is replaced by harness/js/node_modules/binary-parser (the documented behaviour of exactly the calls parser.ts makes)",
                "NaN payloads are compared as a class (a JS Number cannot carry a signalling NaN through Float32Array unchanged)",
                "component names are unique and format letters distinct (the JavaScript frame objects are keyed by them)"]
@@ -47,7 +48,7 @@ def _run_js_batch(raws, tag):
 
 def run_js(raws):
     """every file through the real parser.ts; a file on which the node process dies (out of memory, abort, hang) is isolated by bisection and answered {"ok": False, "crash": …}"""
-    budget = [12]                                            # at most this many crashing files are isolated; the rest of a failing half is marked as not run
+    budget = [3]                                             # at most this many crashing files are isolated; the rest of a failing half is marked as not run
     def go(lo, hi, tag):
         outs, err = _run_js_batch(raws[lo:hi], tag)
         if outs is not None:
@@ -222,6 +223,60 @@ def run(ctx):
         md = [nan_class(x) for x in m["data"]]
         if fl_c != [nan_class(x) for x in m["conf"]] or any(a is not None and a != b for a, b in zip(fl_d, md)) or len(fl_d) != len(md):
             ctx.violation("parser.ts and its model disagree on values", info, {}, False, size=len(raw))
+    version_bands(ctx)
+
+
+def version_bands(ctx):
+    """The only place where the two version switches could part: the rounding bands around 0.1 and 0.2 (Python: round(v, 3) == 0.1 / 0.2 on the float32's exact value;
+    JavaScript: Math.round(v * 1000) / 1000 in binary64). Every float32 pattern within K patterns of the four band edges (thorough: the two whole bands, and a stride
+    through everything between) goes through BOTH real readers as the version field of a v0.1-bodied and a v0.2-bodied file, and through both model classifiers."""
+    rng = ctx.rng
+    f32 = lambda x: int(np.float32(x).view(np.uint32))
+    base = unique_names(pc.gen_pose(rng, frames=1, people=1, ncomps=1, same_format="XYC"))
+    while not pc.representable(base) or pc.total_points(base["header"]) == 0:
+        base = unique_names(pc.gen_pose(rng, frames=1, people=1, ncomps=1, same_format="XYC"))
+    base["body"]["fps"] = {"f32": 0x41C80000}
+    b02 = refenc.v02(base)[len(refenc.header(base["header"], pc.V02)):]
+    c01 = {"header": base["header"], "body": dict(base["body"], fps={"int": 25})}
+    b01 = refenc.v01(c01)[len(refenc.header(base["header"], pc.V01)):]
+    K = ctx.pick(150, 4000)
+    pats = set()
+    for edge in (0.0995, 0.1005, 0.1995, 0.2005):
+        e = f32(edge)
+        pats.update(range(e - K, e + K + 1))
+    if ctx.thorough():
+        pats.update(range(f32(0.0995), f32(0.1005), 7)); pats.update(range(f32(0.1995), f32(0.2005), 5)); pats.update(range(f32(0.05), f32(0.3), 4099))
+    pats.update([0, 0x80000000, f32(0.1), f32(0.2), f32(0.0005), f32(0.00049), 1])
+    pats = sorted(pats)
+    files = [refenc.header(base["header"], w) + body for w in pats for body in (b01, b02)]
+    js = run_js(files)
+    # the models, in runs of consecutive patterns
+    runs, start = [], pats[0]
+    for a, b in zip(pats, pats[1:] + [None]):
+        if b != a + 1:
+            runs.append((start, a)); start = b
+    mo = ctx.driver.run([{"op": "version_class", "lo": lo, "hi": hi} for lo, hi in runs])
+    mpy = "".join(m["py"] for m in mo); mjs = "".join(m["js"] for m in mo)
+    def cls(ok01, ok02):
+        return "1" if ok01 and not ok02 else "2" if ok02 and not ok01 else "x" if not ok01 and not ok02 else "?"
+    for i, w in enumerate(pats):
+        ctx.evaluated(("version", w)); ctx.count("version_band_patterns")
+        p01, p02 = impl_read(files[2 * i], "bytes", {}, None), impl_read(files[2 * i + 1], "bytes", {}, None)
+        py = cls(p01[0] == "ok" and p01[1]["body"]["fps"] == {"int": 25}, p02[0] == "ok" and p02[1]["body"]["fps"] == {"f32": 0x41C80000})
+        j01, j02 = js[2 * i], js[2 * i + 1]
+        jv = cls(bool(j01.get("ok")) and j01.get("fps") == 25 and j01.get("frames_count") == 1, bool(j02.get("ok")) and j02.get("fps") == 25 and j02.get("frames_count") == 1)
+        info = {"version_bits": w, "version": float(np.array([w], np.uint32).view(np.float32)[0])}
+        if py in "12" and jv != py:
+            ctx.violation("the JavaScript reader and the Python reader disagree: a file Python reads as v0.%s is not read as that version by parser.ts" % py, info, {"python": py, "js": jv, "js_error": (j01 if py == "1" else j02).get("error")}, True, size=1, signature={"clause": "version"})
+        if w not in (0, 0x80000000):
+            if mpy[i] not in "0" and (mpy[i] if mpy[i] in "12" else "x") != py:
+                ctx.violation("version switch: the Python reader and its model classify a version pattern differently", info, {"impl": py, "model": mpy[i]}, False)
+            if (mjs[i] if mjs[i] in "12" else "x") != jv and mjs[i] != "0":
+                ctx.violation("version switch: parser.ts and its model classify a version pattern differently", info, {"impl": jv, "model": mjs[i]}, False)
+        # the hypothesis of js_agrees_v01 / js_agrees_v02 (`hcls`): wherever Python sees v0.1 / v0.2 the JavaScript switch sees the same
+        if mpy[i] in "12" and mjs[i] != mpy[i]:
+            ctx.violation("version switch: the two model classifiers differ on a pattern Python accepts (hypothesis hcls of js_agrees_v01 / v02 fails)", info, {"py_model": mpy[i], "js_model": mjs[i]}, False)
+    ctx.extra["version_band"] = {"patterns": len(pats), "per_edge_radius": K, "python_v01": mpy.count("1"), "python_v02": mpy.count("2")}
 
 
 def replay(ctx, rep):
